@@ -325,6 +325,34 @@ def auto_discharge(mir, site_fn, b, bb, t):
                     lo, hi = 0, n
             if lo is not None and 0 <= lo <= hi <= n:
                 return "constant range %d..%d inside a fixed-size array of %d elements" % (lo, hi, n)
+    if re.search(r"core::str::<impl str>::(split_at|split_at_mut)$", name) and len(args) == 2:
+        # `s.split_at(s.find(..).unwrap_or(s.len()))`: an index str::find returned for the same string is a character boundary of
+        # it, and so is its length
+        def same_str(x):
+            a, b2 = x, args[0]
+            for _ in range(4):
+                while isinstance(a, tuple) and a and a[0] in ("ref", "deref"):
+                    a = a[1]
+                while isinstance(b2, tuple) and b2 and b2[0] in ("ref", "deref"):
+                    b2 = b2[1]
+            return a == b2
+
+        def boundary(o, depth=0):
+            while isinstance(o, tuple) and o and o[0] in ("ref", "deref"):
+                o = o[1]
+            if not isinstance(o, tuple) or not o or depth > 4:
+                return False
+            if o[0] == "call" and re.search(r"core::str::<impl str>::(find|rfind|len)$", o[1] or "") and o[3]:
+                return same_str(o[3][0])
+            if o[0] == "call" and re.search(r"Option::<T>::unwrap_or$", o[1] or "") and len(o[3]) == 2:
+                return boundary(o[3][0], depth + 1) and boundary(o[3][1], depth + 1)
+            if o[0] == "const" and o[1] == 0:
+                return True
+            if o[0] == "field" and o[1][0] == "downcast" and o[1][3] == "Some":
+                return boundary(o[1][1], depth + 1)
+            return False
+        if boundary(args[1]):
+            return "the split position is what str::find returned for this very string, or its length: a character boundary inside it"
     if re.search(r"Index(Mut)?::index(_mut)?$", name) and len(args) == 2:
         # `s[k..]` / `s[..k]` / `s[a..b]` with constant bounds on a slice whose length a dominating guard bounds from below
         # (`if s.len() < 2 { continue }`): the interval analysis keeps the length of the slice as a symbol
